@@ -66,7 +66,10 @@ pub enum Tok {
     Empty,
     /// a token containing bytes >= 0x80 (selector into `HI_TOKENS`)
     Hi(u8),
+    /// an unknown token with whitespace *inside* it (selector into `WS_TOKENS`): offers nothing
+    InnerWs(u8),
 }
+const WS_TOKENS: [&[u8]; 7] = [b"x gzip", b"gzip deflate", b"gzip\tq=0", b"not gzip", b"zstd x", b"de flate", b"gzip zstd deflate"];
 const HI_TOKENS: [&[u8]; 5] = [b"\xff", b"gz\xc3\xafp", b"\xc3\xa9", b"gzip\xc2\xa0", b"\x80zstd"];
 /// optional whitespace (SP / HTAB) variants
 const OWS: [&[u8]; 5] = [b"", b" ", b"\t", b"  ", b" \t"];
@@ -84,6 +87,7 @@ impl Tok {
             Tok::GzipQ => b"gzip;q=1",
             Tok::Empty => b"",
             Tok::Hi(k) => HI_TOKENS[k as usize % HI_TOKENS.len()],
+            Tok::InnerWs(k) => WS_TOKENS[k as usize % WS_TOKENS.len()],
         }
     }
 }
@@ -234,6 +238,9 @@ pub struct ClientCase {
     pub req: Vec<Blob>,
     pub resp_enc: EncHdr,
     pub resp: Vec<Frame>,
+    /// answer with a body-less Trailers-Only response (grpc-status 0 in the headers); forces `resp` empty
+    #[serde(default)]
+    pub trailers_only: bool,
 }
 
 #[derive(Clone, Debug, Serialize, Deserialize)]
@@ -287,6 +294,7 @@ fn tok() -> impl Strategy<Value = Tok> {
         1 => Just(Tok::GzipQ),
         1 => Just(Tok::Empty),
         1 => (0u8..HI_TOKENS.len() as u8).prop_map(Tok::Hi),
+        2 => (0u8..WS_TOKENS.len() as u8).prop_map(Tok::InnerWs),
     ]
 }
 fn ows() -> impl Strategy<Value = u8> {
@@ -355,8 +363,12 @@ pub fn strategy() -> BoxedStrategy<Case> {
         proptest::collection::vec(msg(), 0..=3),
         enc_hdr(),
         proptest::collection::vec(frame(), 0..=3),
+        proptest::bool::weighted(0.15),
     )
-        .prop_map(|(send, accept, shape, req, resp_enc, resp)| Case::Client(ClientCase { send, accept, shape, req, resp_enc, resp }));
+        .prop_map(|(send, accept, shape, req, resp_enc, resp, trailers_only)| {
+            let resp = if trailers_only { vec![] } else { resp };
+            Case::Client(ClientCase { send, accept, shape, req, resp_enc, resp, trailers_only })
+        });
     prop_oneof![3 => server, 2 => client].boxed()
 }
 
@@ -775,7 +787,26 @@ fn run_server(c: &ServerCase, o: &mut Outcome) -> Result<(), Failure> {
         // metamorphic: optional whitespace in the list is insignificant, so the choice must not change
         // when it is removed
         if has_ows && !non_ascii {
-            let stripped: Vec<Vec<u8>> = lines.iter().map(|l| l.iter().copied().filter(|b| *b != b' ' && *b != b'\t').collect()).collect();
+            // only the *optional* whitespace around the list items is removed; whitespace inside an
+            // (unknown) token is part of that token
+            let stripped: Vec<Vec<u8>> = lines
+                .iter()
+                .map(|l| {
+                    l.split(|b| *b == b',')
+                        .map(|t| {
+                            let mut t = t;
+                            while let [b' ' | b'\t', r @ ..] = t {
+                                t = r;
+                            }
+                            while let [r @ .., b' ' | b'\t'] = t {
+                                t = r;
+                            }
+                            t.to_vec()
+                        })
+                        .collect::<Vec<_>>()
+                        .join(&b","[..])
+                })
+                .collect();
             let (ans2, _) = call_server(c, &stripped)?;
             let ann2 = announced(&ans2.headers).unwrap_or(None);
             ensure!(ann2 == ann, "C05/choice-depends-on-optional-whitespace", "grpc-accept-encoding {:?} -> {:?}, without the optional whitespace -> {:?} (send-set {})", lines.iter().map(|l| String::from_utf8_lossy(l).into_owned()).collect::<Vec<_>>(), ann, ann2, names(&send));
@@ -826,6 +857,8 @@ fn run_client(c: &ClientCase, o: &mut Outcome) -> Result<(), Failure> {
     o.nontrivial = c.send.map(|e| set_of(&[e])).unwrap_or_default() != accept || refused || flag_contradicts;
 
     let (resp_enc, frames2) = (c.resp_enc, resp_frames.clone());
+    let trailers_only = c.trailers_only && resp_frames.is_empty();
+    o.label_if(trailers_only, "resp_trailers_only");
     let ch = MockChannel::new(move |_rec| {
         let mut headers = http::HeaderMap::new();
         headers.insert("content-type", http::HeaderValue::from_static("application/grpc"));
@@ -833,7 +866,11 @@ fn run_client(c: &ClientCase, o: &mut Outcome) -> Result<(), Failure> {
             headers.insert("grpc-encoding", http::HeaderValue::from_bytes(v).expect("legal header value"));
         }
         let mut steps: Vec<BodyStep> = frames2.iter().map(|f| BodyStep::Data(Bytes::from(wire::frame(f.flag(), &f.payload(resp_enc))))).collect();
-        steps.push(BodyStep::Trailers(ok_trailers()));
+        if trailers_only {
+            headers.insert("grpc-status", http::HeaderValue::from_static("0"));
+        } else {
+            steps.push(BodyStep::Trailers(ok_trailers()));
+        }
         Reply { status: 200, headers, steps }
     });
     let log = ch.log.clone();
@@ -1020,7 +1057,11 @@ pub fn fixed_cases() -> Vec<Case> {
                         req: vec![hello.clone()],
                         resp_enc: h,
                         resp: vec![Frame { flag, pay: Pay::AsHeader, msg: hello.clone() }],
+                        trailers_only: false,
                     }));
+                    if flag == 1 {
+                        v.push(Case::Client(ClientCase { send, accept: accept.clone(), shape: Shape::ServerStream, req: vec![hello.clone()], resp_enc: h, resp: vec![], trailers_only: true }));
+                    }
                 }
             }
         }
@@ -1122,7 +1163,7 @@ pub fn from_bytes(data: &[u8]) -> Option<Case> {
         for _ in 0..n {
             resp.push(a_frame(&mut u)?);
         }
-        Some(Case::Client(ClientCase { send, accept, shape, req, resp_enc, resp }))
+        Some(Case::Client(ClientCase { send, accept, shape, req, resp_enc, resp, trailers_only: false }))
     }
 }
 
